@@ -8,6 +8,7 @@ import CookModel.Lemmas.ExtLawsLocal
 import CookModel.Lemmas.ExtLawsSingle
 import CookModel.Lemmas.ExtLawsValue
 import CookModel.Lemmas.C02Lift
+import CookModel.Lemmas.C02LiftMeta
 import CookModel.Lemmas.LexLaws
 /-
   C02  Core-syntax recipes parse identically under every extension subset.
@@ -915,6 +916,34 @@ theorem C02_modes_local_parse (env : Env) (e : Ext) (input : Str)
        Or.inr hb⟩) h)
     (c02lift_evsLocalB_of _ env _ (fun ev hv =>
       c02lift_evLocalB_modes env _ ev (by decide) (by decide) (List.all_eq_true.mp hev ev hv)))
+
+/-- what the parser produces on an input none of whose blocks is a `>> [key]` line (`metaKeyCore`), the
+    blocks being otherwise arbitrary: no `>>` event has a `[…]` key as the analysis tests it (for every
+    character table that classifies the ASCII space as whitespace) -/
+theorem C02_metaKeyCore_events (cs : CharSpec) (hws : cs.uws ' ' = true) (e : Ext) (input : List Char)
+    (h : AllBlocksOf cs input (metaKeyCore cs) = true) :
+    (pullEvents (α := α) cs e input).1.toList.all (evNoBracket cs) = true :=
+  c02meta_evNoBracket cs (keyTestsAgree_of_space cs hws) e input h
+
+/-- MODES, the whole `parse`, premise on the tokens only: on an input none of whose blocks is a
+    `>> [key]` line, extension sets that agree on the other seven flags give the same full result -/
+theorem C02_modes_local_parse_tokens (env : Env) (hws : env.cs.uws ' ' = true) (e : Ext) (input : Str)
+    (ha : AgreeOn (otherFlagsAll [Gen.EXT_MODES]) e env.ext)
+    (h : AllBlocksOf env.cs input (metaKeyCore env.cs) = true) :
+    parseRecipe (α := α) (env.withExt e) input = parseRecipe env input :=
+  C02_modes_local_parse env e input ha h (C02_metaKeyCore_events env.cs hws env.ext input h)
+
+/-- ADVANCED_UNITS, the whole `parse`, when in addition no block is a `>> [key]` line (so that the
+    collector stays in its default modes): an ingredient with a quantity only has to lack the `&`
+    modifier (`advEvCore env true`) -/
+theorem C02_advanced_local_parse_default_modes (env : Env) (hws : env.cs.uws ' ' = true) (e : Ext) (input : Str)
+    (ha : AgreeOn (otherFlagsAll [Gen.EXT_ADVANCED_UNITS]) e env.ext)
+    (h : AllBlocksOf env.cs input advCore = true)
+    (hm : AllBlocksOf env.cs input (metaKeyCore env.cs) = true)
+    (hev : (pullEvents (α := α) env.cs env.ext input).1.toList.all (advEvCore env true) = true) :
+    parseRecipe (α := α) (env.withExt e) input = parseRecipe env input :=
+  C02_advanced_local_parse env e input ha h
+    (by rw [C02_metaKeyCore_events env.cs hws env.ext input hm]; exact hev)
 
 /-- INLINE_QUANTITIES is read by the analysis only: on EVERY input in whose step texts the finder finds
     nothing (and no text is empty), extension sets that agree on the seven parser flags give the same
